@@ -140,10 +140,16 @@ type shardWriter struct {
 	cur   int
 }
 
-func newShardWriter(prefix string, n int) *shardWriter {
+func newShardWriter(prefix string, n int) *shardWriter { return newShardWriterMode(prefix, n, false) }
+
+func newShardWriterMode(prefix string, n int, app bool) *shardWriter {
 	w := &shardWriter{}
 	for i := 0; i < n; i++ {
-		f, err := os.Create(fmt.Sprintf("%s.%03d.ndjson", prefix, i))
+		flags := os.O_CREATE | os.O_WRONLY | os.O_TRUNC
+		if app {
+			flags = os.O_CREATE | os.O_WRONLY | os.O_APPEND
+		}
+		f, err := os.OpenFile(fmt.Sprintf("%s.%03d.ndjson", prefix, i), flags, 0644)
 		if err != nil {
 			fatal("create shard: %v", err)
 		}
